@@ -106,10 +106,10 @@ def run(ctx):
                 detail='whoever opened the map first closes it when it finishes, regardless of other '
                        'users whose lifetimes do not nest: advancing a second iterchunks generator after '
                        'the first is exhausted touches an unmapped page (SIGSEGV)')
-    ctx.floor('C19 suspending holders', len(holders), 4)
+    ctx.floor('C19 suspending holders', len(holders), 3)
     # D2: no raw view escapes any holder
     n = esc_obligations(ctx, 'D2')
-    ctx.floor('C19 with-blocks on map-yielding managers', n, 14)
+    ctx.floor('C19 with-blocks on map-yielding managers', n, 10)
     # D3: release on all exits
     pair_obligations(ctx, 'D3')
     # D4: holders do not pin a mode of their own (every write takes effect)
